@@ -4,6 +4,7 @@ import (
 	"context"
 	"database/sql"
 	"database/sql/driver"
+	"errors"
 	"fmt"
 	"reflect"
 	"sort"
@@ -576,6 +577,40 @@ func TestReorderColumns(t *testing.T) {
 	}
 	if strings.Join(cols, ",") != "v,a,b" {
 		t.Fatalf("ordinal positions: %v", cols)
+	}
+	noBroken(t, e)
+}
+
+func TestFaultInjection(t *testing.T) {
+	e, db := setup(t)
+	ctx := context.Background()
+	db.InsertRows(ctx, []*pair{{A: 1, B: "a"}, {A: 2, B: "b"}, {A: 3, B: "c"}}, 10)
+	boom := errors.New("connection lost")
+	attempts := 0
+	e.SetHooks(Hooks{Fault: func(st *Stmt) *Fault {
+		switch {
+		case st.Kind == SSelect && st.Table == "pairs" && st.Limit == 0:
+			return &Fault{RowsErr: boom, RowsErrAfter: 2}
+		case st.Kind == SCount:
+			attempts++
+			return &Fault{Err: driver.ErrBadConn}
+		}
+		return nil
+	}})
+	var ps []*pair
+	if err := db.Query(ctx, &ps, nil, nil); err != boom {
+		t.Fatalf("mid-result failure: err = %v, rows = %d", err, len(ps))
+	}
+	// fewer rows than RowsErrAfter: the stream ends normally
+	if err := db.Query(ctx, &ps, sqlgen.Filter{"a": int32(1)}, nil); err != nil || len(ps) != 1 {
+		t.Fatalf("short result: %v %d", err, len(ps))
+	}
+	if _, err := db.Count(ctx, &pair{}, nil); err != driver.ErrBadConn || attempts != 3 {
+		t.Fatalf("ErrBadConn: err = %v after %d attempts", err, attempts)
+	}
+	e.SetHooks(Hooks{})
+	if n, err := db.Count(ctx, &pair{}, nil); err != nil || n != 3 {
+		t.Fatalf("after faults: %d %v", n, err)
 	}
 	noBroken(t, e)
 }
